@@ -150,6 +150,14 @@ def judge(case) -> Verdict:
         v.fail("render:protocol_nr-keeps-name", {"text": text, "rendered": out, "kw": kw})
     if not protocol_nr and ptok.isdigit() and int(ptok) in G.lib_proto_native(platform).values():
         v.fail("render:known-protocol-as-number", {"text": text, "rendered": out, "kw": kw})
+    # ---- the parsed sides are separate objects: re-writing one port condition leaves the other side as parsed
+    if ref.sport and ref.dport and not v.fails:
+        side = "srcport" if case.get("edit_side", 0) % 2 == 0 else "dstport"
+        keep = ace.dstport if side == "srcport" else ace.srcport
+        want = ref.dport if side == "srcport" else ref.sport
+        getattr(ace, side).line = "eq 5060"
+        port_agrees(v, keep, want, f"fields:{'dstport' if side == 'srcport' else 'srcport'}:after-editing-the-other-side")
+        v.label("twin-port-expressions" if ref.sport.ivs == ref.dport.ivs else "both-sides-ported")
     return v
 
 
